@@ -2,6 +2,7 @@ package c11
 
 import (
 	"bytes"
+	"errors"
 	"fmt"
 	"io"
 	"net/http"
@@ -25,12 +26,18 @@ type apiIOCase struct {
 	Evals int `json:"evals"`
 	Build int `json:"build"` // how many MonadIOs are built from the same API function
 	Body  int `json:"body"`
+	// FailAt > 0: the FailAt-th request meets a transport error (that evaluation yields Err, the others
+	// their own responses)
+	FailAt int `json:"failAt,omitempty"`
 }
 
 type countRT struct {
 	mu     sync.Mutex
 	bodies []string
+	failAt int
 }
+
+var errCountRT = errors.New("c11: injected transport failure")
 
 func (c *countRT) RoundTrip(req *http.Request) (*http.Response, error) {
 	// like net/http's transport: a request whose context is already done is not sent
@@ -45,13 +52,17 @@ func (c *countRT) RoundTrip(req *http.Request) (*http.Response, error) {
 	}
 	c.mu.Lock()
 	c.bodies = append(c.bodies, req.Method+" "+b)
+	seq := len(c.bodies)
 	c.mu.Unlock()
+	if seq == c.failAt {
+		return nil, errCountRT
+	}
 	return &http.Response{Status: "200 OK", StatusCode: 200, Proto: "HTTP/1.1", ProtoMajor: 1, ProtoMinor: 1,
-		Header: http.Header{}, Body: io.NopCloser(strings.NewReader(`{"ok":1}`)), ContentLength: -1, Request: req}, nil
+		Header: http.Header{"X-Seq": {fmt.Sprint(seq)}}, Body: io.NopCloser(strings.NewReader(`{"ok":1}`)), ContentLength: -1, Request: req}, nil
 }
 
 func runAPIIO(c apiIOCase) (key, msg string) {
-	rt := &countRT{}
+	rt := &countRT{failAt: c.FailAt}
 	sh := network.NewSimpleHTTPWithClientAndInterceptors(&http.Client{Transport: rt})
 	api := network.NewSimpleAPIWithSimpleHTTP("http://c11.test", sh)
 	serCalls := 0
@@ -66,41 +77,41 @@ func runAPIIO(c apiIOCase) (key, msg string) {
 	type resp = map[string]interface{}
 	methods := []string{"POST", "PUT", "PATCH", "GET", "DELETE", "POST", "PUT", "PATCH", "OPTIONS", "HEAD"}
 	form := &network.MultipartForm{Value: map[string][]string{"b": {fmt.Sprint(c.Body)}}}
-	var ios []func() error
+	var ios []func() *network.APIResponse[resp]
 	p, st := vlib.Try(func() {
 		for b := 0; b < c.Build; b++ {
 			tgt := &resp{}
 			switch c.Verb {
 			case 0:
 				m := network.APIMakePostJSONBody[int, resp](api, "x")(nil, c.Body, tgt)
-				ios = append(ios, func() error { return m.Eval().Err })
+				ios = append(ios, m.Eval)
 			case 1:
 				m := network.APIMakePutJSONBody[int, resp](api, "x")(nil, c.Body, tgt)
-				ios = append(ios, func() error { return m.Eval().Err })
+				ios = append(ios, m.Eval)
 			case 2:
 				m := network.APIMakePatchJSONBody[int, resp](api, "x")(nil, c.Body, tgt)
-				ios = append(ios, func() error { return m.Eval().Err })
+				ios = append(ios, m.Eval)
 			case 3:
 				m := network.APIMakeGet[resp](api, "x")(nil, tgt)
-				ios = append(ios, func() error { return m.Eval().Err })
+				ios = append(ios, m.Eval)
 			case 4:
 				m := network.APIMakeDelete[resp](api, "x")(nil, tgt)
-				ios = append(ios, func() error { return m.Eval().Err })
+				ios = append(ios, m.Eval)
 			case 5:
 				m := network.APIMakePostMultipartBody[resp](api, "x")(nil, form, tgt)
-				ios = append(ios, func() error { return m.Eval().Err })
+				ios = append(ios, m.Eval)
 			case 6:
 				m := network.APIMakePutMultipartBody[resp](api, "x")(nil, form, tgt)
-				ios = append(ios, func() error { return m.Eval().Err })
+				ios = append(ios, m.Eval)
 			case 7:
 				m := network.APIMakePatchMultipartBody[resp](api, "x")(nil, form, tgt)
-				ios = append(ios, func() error { return m.Eval().Err })
+				ios = append(ios, m.Eval)
 			case 8:
 				m := network.APIMakeDoNewRequestWithBodySerializer[int, resp](api, "OPTIONS", "x", "application/json", api.RequestSerializerForJSON)(nil, c.Body, tgt)
-				ios = append(ios, func() error { return m.Eval().Err })
+				ios = append(ios, m.Eval)
 			default:
 				m := network.APIMakeDoNewRequest[resp](api, "HEAD", "x")(nil, tgt)
-				ios = append(ios, func() error { return m.Eval().Err })
+				ios = append(ios, m.Eval)
 			}
 		}
 	})
@@ -112,15 +123,58 @@ func runAPIIO(c apiIOCase) (key, msg string) {
 	}
 	hasBody := c.Verb <= 2 || (c.Verb >= 5 && c.Verb <= 8)
 	n := 0
+	// what every evaluation yielded, looked at again after all later evaluations: each Eval yields the value
+	// of ITS evaluation
+	type yielded struct {
+		r      *network.APIResponse[resp]
+		failed bool
+		seq    string
+	}
+	var all []yielded
+	defer func() {
+		if key != "" {
+			return
+		}
+		for j, y := range all {
+			switch {
+			case y.failed && y.r.Err == nil:
+				key, msg = "C11/simpleapi/value-changed", fmt.Sprintf("evaluation %d yielded a response with Err set; after %d more evaluations the same response says Err == nil", j+1, len(all)-j-1)
+			case !y.failed && (y.r.Err != nil || y.r.Response == nil || y.r.Response.Header.Get("X-Seq") != y.seq):
+				got := "nil"
+				if y.r.Response != nil {
+					got = y.r.Response.Header.Get("X-Seq")
+				}
+				key, msg = "C11/simpleapi/value-changed", fmt.Sprintf("evaluation %d yielded the response to request #%s; after %d more evaluations the value it yielded shows Err=%v and the response to request #%s", j+1, y.seq, len(all)-j-1, y.r.Err, got)
+			}
+			if key != "" {
+				return
+			}
+		}
+	}()
 	for e := 0; e < c.Evals; e++ {
 		for i, ev := range ios {
-			var err error
-			if p, st := vlib.Try(func() { err = ev() }); p != nil {
+			var r *network.APIResponse[resp]
+			if p, st := vlib.Try(func() { r = ev() }); p != nil {
 				return "C11/simpleapi/panic", fmt.Sprintf("%v\n%s", p, firstFrames(st))
 			}
 			n++
-			if err != nil {
-				return "C11/simpleapi/err", fmt.Sprintf("evaluation %d of MonadIO %d failed: %v", e+1, i, err)
+			if r == nil {
+				return "C11/simpleapi/err", fmt.Sprintf("evaluation %d of MonadIO %d yielded nil", e+1, i)
+			}
+			err := r.Err
+			if n == c.FailAt {
+				if !errors.Is(err, errCountRT) {
+					return "C11/simpleapi/err", fmt.Sprintf("evaluation %d met a transport failure, Err = %v", n, err)
+				}
+				all = append(all, yielded{r: r, failed: true})
+			} else {
+				if err != nil {
+					return "C11/simpleapi/err", fmt.Sprintf("evaluation %d of MonadIO %d failed: %v", e+1, i, err)
+				}
+				if r.Response == nil || r.Response.Header.Get("X-Seq") != fmt.Sprint(n) {
+					return "C11/simpleapi/value", fmt.Sprintf("evaluation %d does not yield the response to its own request (#%d)", n, n)
+				}
+				all = append(all, yielded{r: r, seq: fmt.Sprint(n)})
 			}
 			wantSer := 0
 			if hasBody {
@@ -148,8 +202,11 @@ func TestSimpleAPIMonadIO(t *testing.T) {
 	vlib.Check(t, "simpleapi", 1500, 15000, func(t *rapid.T) {
 		c := apiIOCase{Verb: rapid.IntRange(0, 9).Draw(t, "verb"), Evals: rapid.IntRange(0, 3).Draw(t, "evals"),
 			Build: rapid.IntRange(1, 3).Draw(t, "build"), Body: rapid.IntRange(0, 99).Draw(t, "body")}
+		if c.Evals*c.Build >= 2 && rapid.Bool().Draw(t, "fails") {
+			c.FailAt = rapid.IntRange(1, c.Evals*c.Build).Draw(t, "failAt")
+		}
 		vlib.S().Eval("simpleapi")
-		if c.Evals >= 2 && (c.Verb <= 2 || (c.Verb >= 5 && c.Verb <= 8)) {
+		if c.Evals >= 2 {
 			vlib.S().NonTrivial("simpleapi", fmt.Sprintf("%+v", c))
 		}
 		if key, msg := runAPIIO(c); key != "" {
